@@ -95,8 +95,24 @@ func (m *marker) set(id int, typ, entry, class string, in []byte) {
 	if n < len(in) {
 		d = append(d, fmt.Sprintf("...(%d bytes)", len(in))...)
 	}
+	putU64(m.mem[4088:4096], 0)
 	putU64(m.mem[8:16], uint64(len(d)))
 	putU64(m.mem[0:8], uint64(id))
+}
+
+// stage records which entry point of the current case is running (0 = the typed decoder, i = rawEntries[i-1]).
+func (m *marker) stage(n int) {
+	if m != nil {
+		putU64(m.mem[4088:4096], uint64(n))
+	}
+}
+
+func readStage(path string) int {
+	b, err := os.ReadFile(path)
+	if err != nil || len(b) < 4096 {
+		return 0
+	}
+	return int(getU64(b[4088:4096]))
 }
 
 func putU64(b []byte, v uint64) {
@@ -284,6 +300,12 @@ func runUnit(w **workerProc, dir string, u unit, caseTimeout time.Duration) (*un
 				partial := res.Partial
 				merged = mergeResult(merged, &res)
 				if !partial {
+					if merged.Restart {
+						// a call that never returned is still spinning in that worker: replace it
+						(*w).cmd.Process.Kill()
+						(*w).cmd.Wait()
+						*w = startWorker((*w).id, dir)
+					}
 					return merged, killers
 				}
 				u.StartEnc++
@@ -324,6 +346,9 @@ func runUnit(w **workerProc, dir string, u unit, caseTimeout time.Duration) (*un
 		}
 		if reason == "" || id == 0 {
 			fatal("worker died outside a recorded case (unit %d kind %s root %d, marker case %d): %s", u.ID, u.Kind, u.Root, id, tail)
+		}
+		if st := readStage((*w).mark); st >= 1 && st <= len(rawEntries) {
+			typ, entry = rawTypeName, rawEntries[st-1]
 		}
 		killers = append(killers, killer{Unit: u.ID, Case: id, Type: typ, Entry: entry, Class: class, Input: input, Reason: reason, Stderr: firstLine(stderr)})
 		u.Skip = append(u.Skip, id)
@@ -432,6 +457,7 @@ func main() {
 	}
 	add(unit{Kind: "audit", Cost: 1 << 41}) // the registry audit runs (and is reported) first
 	add(unit{Kind: "maporder", Cost: 1 << 40})
+	add(unit{Kind: "rawfamily", Cost: 1 << 39})
 	for i := range roots {
 		n := 1
 		est := slots[i] * slots[i] * 30 * (4 + sizes[i].length/40) // pairs x alternatives^2, microseconds
@@ -494,7 +520,7 @@ func main() {
 		var keep []unit
 		for _, u := range units {
 			for _, sub := range strings.Split(only, ",") {
-				if u.Kind != "maporder" && u.Kind != "audit" && strings.Contains(roots[u.Root].Name, sub) {
+				if u.Kind != "maporder" && u.Kind != "audit" && u.Kind != "rawfamily" && strings.Contains(roots[u.Root].Name, sub) {
 					u.ID = len(keep)
 					keep = append(keep, u)
 					break
@@ -594,6 +620,9 @@ func main() {
 			switch k.Reason {
 			case "timeout":
 				key = "decode-does-not-terminate:" + k.Type
+				if k.Type == rawTypeName {
+					key = "decoder-does-not-return:" + k.Entry
+				}
 				what = fmt.Sprintf("%s via %s: no result after %v for input %s", k.Type, k.Entry, caseTimeout, k.Input)
 			case "stack":
 				key = "decode-stack-overflow:" + k.Type
@@ -619,7 +648,7 @@ func main() {
 		}
 		for k, v := range res.Counters {
 			counters[k] += v
-			if units[ui].Kind != "maporder" && units[ui].Kind != "audit" {
+			if units[ui].Kind != "maporder" && units[ui].Kind != "audit" && units[ui].Kind != "rawfamily" {
 				perRoot[units[ui].Root][k] += v
 			}
 		}
@@ -671,6 +700,9 @@ func main() {
 			pairList = append(pairList, fmt.Sprintf("%s | %s | %d decodes", rt.Name, ep, pairs[rt.Name+" | "+ep]))
 		}
 	}
+	for _, ep := range rawEntries {
+		pairList = append(pairList, fmt.Sprintf("%s | %s | %d decodes", rawTypeName, ep, pairs[rawTypeName+" | "+ep]))
+	}
 	var rootList []interface{}
 	for i, rt := range roots {
 		rootList = append(rootList, map[string]interface{}{"type": rt.Name, "origin": rt.Origin, "choice_points_on_default": slots[i],
@@ -681,7 +713,7 @@ func main() {
 		opq = append(opq, o)
 	}
 	sort.Strings(opq)
-	decodes := counters["roundtrip_decodes"] + counters["hostile_decodes"] + counters["accepted_value_roundtrips"] + counters["map_encodings"] + counters["chunked_stream_decodes"]
+	decodes := counters["raw_splitter_calls"] + counters["roundtrip_decodes"] + counters["hostile_decodes"] + counters["accepted_value_roundtrips"] + counters["map_encodings"] + counters["chunked_stream_decodes"]
 	r.Set("root_types", len(roots))
 	r.Set("registered_concrete_types", len(reg.concrete))
 	r.Set("registered_interface_types", len(reg.ifaces))
@@ -756,6 +788,9 @@ func replayCase(r *vk.Run, reg *registry, roots []root) {
 	if rp.Phase == "chunked-stream" {
 		u = unit{Kind: "replay-chunk", TypeName: rp.Type, Entry: rp.Entry, InputHex: rp.Input, Reader: rp.Reader}
 	}
+	if rp.Phase == "raw" {
+		u = unit{Kind: "replay-raw", InputHex: rp.Input}
+	}
 	if rp.Phase == "registry-audit" {
 		u = unit{Kind: "audit"}
 	}
@@ -810,6 +845,7 @@ func mergeResult(a, b *unitResult) *unitResult {
 	if b.Err != "" {
 		a.Err = b.Err
 	}
+	a.Restart = a.Restart || b.Restart
 outer:
 	for _, v := range b.Violations {
 		for _, w := range a.Violations {
